@@ -4,6 +4,7 @@ import json, os, sys
 ROOT = os.path.dirname(os.path.dirname(os.path.abspath(__file__)))
 import glob
 PROPS = {os.path.basename(p)[:-5]: json.load(open(p)) for p in glob.glob(os.path.join(ROOT, "props", "C*.json"))}
+PROPS = {k: v for k, v in PROPS.items() if v.get("claimed", True)}
 LEVELS = {k: v["level"] for k, v in PROPS.items()}
 NOT_APPLICABLE = json.load(open(os.path.join(ROOT, "props", "not_applicable.json")))
 
